@@ -1219,6 +1219,9 @@ func c07SweepExec(c *arshalCase) {
 	// Each case brings the recycled streaming encoder into a known state first, so that it gives
 	// the same result when re-executed alone: a warm-up write sizes the pooled buffer (its flush
 	// threshold is 75% of the capacity), optionally ending in a failed write.
+	// two collections empty the sync.Pools: the streaming encoder this case gets is a new one
+	runtime.GC()
+	runtime.GC()
 	warm := []int{0, L / 2, L, 2 * L, 64, 4096}[variant%6]
 	if variant%12 >= 6 {
 		jsonv2.MarshalWrite(&scriptedWriter{outcomes: []int{3}}, []string{strings.Repeat("stale", 8+warm/5)})
